@@ -334,8 +334,9 @@ def gen_consts(out):
     out.append("Definition sim_default_args : list (string * string) := [" +
                "; ".join(f"({_str(a)}, {_str(b)})" for a, b in shapes) + "].")
     # is a fresh directory created inside __init__ when none is given?
-    body_src = ast.unparse(init)
-    out.append(f"Definition sim_init_makes_fresh_dir : bool := {'true' if 'mkdtemp' in body_src.split(chr(10), 1)[1].split('\"\"\"')[-1] else 'false'}.")
+    fresh = any(isinstance(n, ast.Call) and ast.unparse(n.func).endswith("mkdtemp")
+                for stmt in init.body for n in ast.walk(stmt))
+    out.append(f"Definition sim_init_makes_fresh_dir : bool := {'true' if fresh else 'false'}.")
     # _divide_arrays_ignore: result of nan_to_num used?
     div = [n for n in misct.body if isinstance(n, ast.FunctionDef) and n.name == "_divide_arrays_ignore"]
     if not div:
